@@ -1,11 +1,18 @@
 /* Proof harnesses: CRC-16, BitStream accessors, MFM read_byte. */
 #include "dfs_types.h"
+#ifndef VERIF_STRIDE
+#define VERIF_STRIDE 1
+#endif
 static void mon_read_block(struct DataAccess *obj, unsigned long lba) { (void)obj; (void)lba; }
 static void mon_read_result(struct DataAccess *obj, _Bool ok) { (void)obj; (void)ok; }
+#ifndef CRC_MAXLEN
 #define CRC_MAXLEN 264                 /* longest block the decoders pass: 3 + 1 + 256 + 2 bytes */
+#endif
+#ifndef TRACK_BYTES
 #define TRACK_BYTES 16384
+#endif
 static uint8_t h_crc_data[CRC_MAXLEN];
-static unsigned long h_crc_pref[CRC_MAXLEN + 1];
+static unsigned short h_crc_pref[CRC_MAXLEN + 1];
 static byte h_track[TRACK_BYTES];
 static unsigned g_bit;                /* ghost bit index 0..7 */
 #define SPEC_SHIFT_(c) ((((c) & 0x8000ul) ? ((((c) << 1) ^ 0x1021ul)) : ((c) << 1)) & 0xFFFFul)
@@ -20,14 +27,26 @@ static unsigned long spec_crc_byte(unsigned long c, uint8_t b)
 static void h_fill_crc(unsigned long init)
 {
   unsigned i;
-  h_crc_pref[0] = init;
-  for (i = 0; i < CRC_MAXLEN; ++i) h_crc_pref[i + 1] = spec_crc_byte(h_crc_pref[i], h_crc_data[i]);
+  h_crc_pref[0] = (unsigned short)init;
+  for (i = 0; i < CRC_MAXLEN; ++i) h_crc_pref[i + 1] = (unsigned short)spec_crc_byte(h_crc_pref[i], h_crc_data[i]);
 }
 #define CRC_UPDATE_LOOP_CONTRACT \
-  __CPROVER_assigns(p, crc_) \
-  __CPROVER_loop_invariant(__CPROVER_same_object(p, start) && start <= p && p <= end) \
-  __CPROVER_loop_invariant(crc_ == h_crc_pref[p - start] && crc_ <= 0xFFFFul) \
-  __CPROVER_decreases(end - p)
+  __CPROVER_assigns(p, crc_, __CPROVER_object_whole(h_inner)) \
+  __CPROVER_loop_invariant(__CPROVER_same_object(p, start) && __CPROVER_POINTER_OFFSET(p) >= __CPROVER_POINTER_OFFSET(start) && __CPROVER_POINTER_OFFSET(p) <= __CPROVER_POINTER_OFFSET(end)) \
+  __CPROVER_loop_invariant(__CPROVER_POINTER_OFFSET(p) - __CPROVER_POINTER_OFFSET(start) <= CRC_MAXLEN && __CPROVER_POINTER_OFFSET(p) >= __CPROVER_POINTER_OFFSET(start) && \
+                           crc_ == h_crc_pref[__CPROVER_POINTER_OFFSET(p) - __CPROVER_POINTER_OFFSET(start)] && crc_ <= 0xFFFFul) \
+  __CPROVER_decreases(__CPROVER_POINTER_OFFSET(end) - __CPROVER_POINTER_OFFSET(p))
+/* ghost for the 8-step inner loop: h_inner[j] = state after j bit steps of the current byte (set up, by an
+   extraction rule, just before the inner loop; loop-free) */
+static unsigned long h_inner[9];
+#define CRC_INNER_GHOST_SETUP \
+  h_inner[0] = crc_; h_inner[1] = SPEC_SHIFT_(h_inner[0]); h_inner[2] = SPEC_SHIFT_(h_inner[1]); h_inner[3] = SPEC_SHIFT_(h_inner[2]); \
+  h_inner[4] = SPEC_SHIFT_(h_inner[3]); h_inner[5] = SPEC_SHIFT_(h_inner[4]); h_inner[6] = SPEC_SHIFT_(h_inner[5]); \
+  h_inner[7] = SPEC_SHIFT_(h_inner[6]); h_inner[8] = SPEC_SHIFT_(h_inner[7]);
+#define CRC_INNER_LOOP_CONTRACT \
+  __CPROVER_assigns(k, crc_) \
+  __CPROVER_loop_invariant(0 <= k && k <= 8 && crc_ == h_inner[k] && crc_ <= 0xFFFFul) \
+  __CPROVER_decreases(8 - k)
 #include "crc_cycle.inc"
 #include "CRC16Base_update.inc"
 #include "CRC16Base_update_bit.inc"
@@ -49,7 +68,18 @@ void h_crc_update(void)
   __CPROVER_assume(init <= 0xFFFFul);
   h_fill_crc(init);
   size_t n = nondet_size_t();
+  __CPROVER_assume(n <= CRC_MAXLEN);
   CRC16Base_update(c, h_crc_data, h_crc_data + n);
+}
+void h_crc_update_one(void)
+{
+  /* one byte: the byte step of update() is the bit-serial specification step (the loop is unwound once) */
+  struct CRC16Base *c;
+  unsigned long init = nondet_ulong();
+  __CPROVER_assume(init <= 0xFFFFul);
+  h_crc_pref[0] = (unsigned short)init;
+  h_crc_pref[1] = (unsigned short)spec_crc_byte(init, h_crc_data[0]);
+  CRC16Base_update(c, h_crc_data, h_crc_data + 1);
 }
 void h_reverse(void) { g_bit = nondet_uint(); __CPROVER_assume(g_bit < 8); reverse_bit_order(nondet_uchar()); }
 void h_raw_pos(void) { struct BitStream *b; BitStream_raw_pos(b, nondet_size_t()); }
